@@ -356,8 +356,11 @@ Inductive wop :=
 | WLvcNew (id : Z) (utf8 : bool)         (* a LibVNCClient is the peer of connection id *)
 | WLvcCut (id : Z) (text : list Z)       (* SendClientCutText *)
 | WLvcUTF8 (id : Z) (text : list Z)      (* SendClientCutTextUTF8 *)
-| WLvcPump (id : Z)                      (* HandleRFBServerMessage while data is available *)
-| WLvcSched (id : Z) (sched : list Z).   (* what the kernel does on this client's next write() calls *)
+| WLvcPump (id : Z) (nupd : nat)         (* HandleRFBServerMessage while data is available; [nupd] = number of
+                                            FramebufferUpdate messages among them (the server's update traffic is
+                                            not part of this model: the number is an input, like a zlib answer) *)
+| WLvcSched (id : Z) (sched : list Z)    (* what the kernel does on this client's next write() calls *)
+| WLvcFur (id : Z) (incr x y w h : Z).   (* SendFramebufferUpdateRequest: one 10-byte WriteToRFBServer *)
 
 Inductive wevent :=
 | WSrv (e : event)
@@ -388,6 +391,15 @@ Definition lvc_emit (w : world) (id : Z) (parts : list (list Z)) : world * list 
   (mkWorld s' (w_lvcs w) (put_sched (w_sched w) id rest),
    map WSrv ev ++ (if ok then [] else [WLvcSendFail id])).
 
+Definition fur_msg (cfg : config) (incr : Z) : list Z :=
+  [c06_rfbFramebufferUpdateRequest; incr] ++ be16 0 ++ be16 0 ++ be16 (g_w cfg) ++ be16 (g_h cfg).
+
+Fixpoint fur_n (w : world) (id : Z) (n : nat) : world :=
+  match n with
+  | O => w
+  | S k => fur_n (fst (lvc_emit w id [fur_msg (s_cfg (w_srv w)) 1])) id k
+  end.
+
 Definition wstep (w : world) (o : wop) : world * list wevent :=
   match o with
   | WOp o' =>
@@ -395,6 +407,8 @@ Definition wstep (w : world) (o : wop) : world * list wevent :=
   | WLvcNew id utf8 => (mkWorld (w_srv w) ((id, mkLvc 0 utf8, 0%nat) :: w_lvcs w) (w_sched w), [])
   | WLvcSched id sched => (mkWorld (w_srv w) (w_lvcs w) (put_sched (w_sched w) id sched), [])
   | WLvcCut id text => lvc_emit w id (lvc_send_cut_parts text)
+  | WLvcFur id incr x y wd ht =>
+      lvc_emit w id [[c06_rfbFramebufferUpdateRequest; incr] ++ be16 x ++ be16 y ++ be16 wd ++ be16 ht]
   | WLvcUTF8 id text =>
       match find_lvc (w_lvcs w) id with
       | None => (w, [])
@@ -404,7 +418,7 @@ Definition wstep (w : world) (o : wop) : world * list wevent :=
           | Some parts => lvc_emit w id parts
           end
       end
-  | WLvcPump id =>
+  | WLvcPump id nupd =>
       match find_lvc (w_lvcs w) id, find_client (s_clients (w_srv w)) id with
       | Some (l, n), Some c =>
           let outs := k_out (c_clip c) in
@@ -412,8 +426,10 @@ Definition wstep (w : world) (o : wop) : world * list wevent :=
           (* a client that gives up closes its socket: the server will see end-of-file *)
           let s' := if ok then w_srv w
                     else fst (step (ext_cut_real (fix_short (s_cfg (w_srv w)))) (w_srv w) (OEof id)) in
-          (mkWorld s' (put_lvc (w_lvcs w) id l' (length outs)) (w_sched w),
-           map (WLvc id) evs ++ (if ok then [] else [WLvcGaveUp id]))
+          let w1 := mkWorld s' (put_lvc (w_lvcs w) id l' (length outs)) (w_sched w) in
+          (* HandleRFBServerMessage answers every update it digested with SendIncrementalFramebufferUpdateRequest *)
+          let w2 := if ok then fur_n w1 id nupd else w1 in
+          (w2, map (WLvc id) evs ++ (if ok then [] else [WLvcGaveUp id]))
       | _, _ => (w, [])
       end
   end.
